@@ -24,9 +24,10 @@ enum { EV_ADD = 0, EV_RUN, EV_REPLY_OLDEST, EV_REPLY_NEWEST, EV_REPLY_DUP, EV_RE
        EV_ADD_CONF = EV_NEVENTS,   /* a configuration request: only in the alphabet of part "conf" */
        EV_GROW,                    /* the application enlarges the request cache at run time: only in part "dfs2" */
        EV_READD,                   /* the application submits a handle it got back once more (a new request with the same hash): only in part "readd" */
+       EV_RUN_PUMP,                /* KSI_AsyncService_run without a receiving handle pointer (the application only wants the service to make progress): only in part "pump" */
        EV_SNDBUF_FULL,             /* the socket's send buffer is full at the next poll (the connection is not reported writable): only in part "sndbuf" */
        EV_NALL };
-static const char EVCH[EV_NALL + 1] = "ARonduxmseg1haCXPwp+TKGZf";
+static const char EVCH[EV_NALL + 1] = "ARonduxmseg1haCXPwp+TKGZNf";
 
 typedef struct { int cache, maxreq; long long snd, rcv, con; } config_t;
 
@@ -78,7 +79,7 @@ static int g_keep;                 /* returned handles are kept for re-submissio
 static world_t W;
 static char g_hist[40];
 static int g_cfg;
-#define HF(sig, ...) do { char _m[900]; snprintf(_m, sizeof _m, __VA_ARGS__); vf_fail(sig, "%s [history %s cfg %d; letters ARonduxmseg1haCXPwp+T = add,run,reply-oldest,reply-newest,dup,unknown-id,stale-id,bad-mac,status,error-pdu,push-conf,deliver1,half,all,peer-close,refuse-next-connect,pending-connect,send-wouldblock,send-partial,clock+1,clock+big; K = add configuration request, G = grow cache, Z = re-add the handle returned last, f = send buffer full at the next poll]", _m, g_hist, g_cfg); } while (0)
+#define HF(sig, ...) do { char _m[900]; snprintf(_m, sizeof _m, __VA_ARGS__); vf_fail(sig, "%s [history %s cfg %d; letters ARonduxmseg1haCXPwp+T = add,run,reply-oldest,reply-newest,dup,unknown-id,stale-id,bad-mac,status,error-pdu,push-conf,deliver1,half,all,peer-close,refuse-next-connect,pending-connect,send-wouldblock,send-partial,clock+1,clock+big; K = add configuration request, G = grow cache, Z = re-add the handle returned last, N = run without a receiving handle pointer, f = send buffer full at the next poll]", _m, g_hist, g_cfg); } while (0)
 
 /* ------------------------------------------------------------------ environment hooks */
 static int h_connect(sn_conn *c) {
@@ -336,13 +337,15 @@ static void check_returned(KSI_AsyncHandle *h) {
 	else KSI_AsyncHandle_free(h);
 }
 
+static int g_run_pump;   /* the next do_run passes no receiving handle pointer */
 static void do_run(void) {
 	KSI_AsyncHandle *out = NULL;
 	size_t waiting = 9999, pend = 0, recvd = 0;
-	int res;
+	int res, pump = g_run_pump;
 	/* a connection attempt that is still pending when its time is up (or with a zero timeout) is a cause that occurs now */
 	if (W.connecting && (W.cfg.con == 0 || difftime(sn_now, W.connect_started) > W.cfg.con)) W.cause_connect_timeout = (int)W.step + 1;
-	res = KSI_AsyncService_run(W.svc, &out, &waiting);
+	g_run_pump = 0;
+	res = KSI_AsyncService_run(W.svc, pump ? NULL : &out, &waiting);
 	vf_count("impl_calls", 1);
 	if (W.cause_connect_pending && (W.cfg.con == 0 || difftime(sn_now, W.connect_started) > W.cfg.con)) W.cause_connect_timeout = (int)W.step + 1;
 	{ sn_conn *lc = sn_last(); if (lc && lc->state == SN_CLOSED_BY_CLIENT) W.connecting = 0; }
@@ -463,13 +466,14 @@ static int apply_inner(int ev) {
 			} else {
 				if (res == KSI_ASYNC_REQUEST_CACHE_FULL) {
 					vf_outcome("add:cache-full");
-					if (outstanding() != W.cfg.cache) { HF("cache-full-early", "'cache full' with %d outstanding requests and cache size %d", outstanding(), W.cfg.cache); W.violated = 1; }
+					if (outstanding() != W.cfg.cache) { size_t p_ = 0, r_ = 0; KSI_AsyncService_getPendingCount(W.svc, &p_); KSI_AsyncService_getReceivedCount(W.svc, &r_); HF("cache-full-early", "'cache full' with %d outstanding requests and cache size %d (service reports %zu pending, %zu received; configuration notices not yet handed out: %d)", outstanding(), W.cfg.cache, p_, r_, W.conf_pending); W.violated = 1; }
 				} else { vf_outcome("add:error"); HF("add-error", "addRequest failed with 0x%x", res); W.violated = 1; }
 				KSI_AsyncHandle_free(h);
 			}
 			return 1;
 		}
 		case EV_RUN: do_run(); return 1;
+		case EV_RUN_PUMP: g_run_pump = 1; do_run(); return 1;
 		case EV_REPLY_OLDEST: case EV_REPLY_NEWEST: {
 			int k = ev == EV_REPLY_OLDEST ? oldest : newest;
 			if (!c || k < 0 || (ev == EV_REPLY_NEWEST && nun < 2)) return 0;
@@ -833,6 +837,29 @@ static void part_conf(void) {
 	}
 }
 
+/* the service is also driven by calls that pass no receiving handle pointer: such a call makes progress but hands nothing out, so every
+ * finished request is still there for the next ordinary call */
+static void part_pump(void) {
+	static const int ALPHA[] = {EV_ADD, EV_RUN, EV_RUN_PUMP, EV_REPLY_OLDEST, EV_REPLY_STATUS, EV_DELIVER_ALL, EV_CLOCK_BIG, EV_PEER_CLOSE, EV_PUSH_CONF};
+	static const int CFGI[] = {1, 0};
+	int na = 9, ci, a2, depth = VF_THOROUGH ? 9 : 7, e;
+	for (ci = 0; ci < 2; ci++) for (a2 = 0; a2 < na; a2++) {
+		int hist[16];
+		if (!vf_case_begin("pump:cfg%d:A%c:d%d", CFGI[ci], EVCH[ALPHA[a2]], depth)) continue;
+		g_nalpha = 0;
+		for (e = 0; e < na; e++) g_alpha[g_nalpha++] = ALPHA[e];
+		memset(seen, 0, ((size_t)1 << SEEN_BITS) * sizeof *seen);
+		n_states = n_transitions = n_pruned = n_traces = 0;
+		hist[0] = EV_ADD; hist[1] = ALPHA[a2];
+		explore(&CONFIGS[CFGI[ci]], hist, 2, depth);
+		vf_count("states", n_states); vf_count("transitions", n_transitions); vf_count("traces", n_traces); vf_count("pruned_revisits", n_pruned);
+		if (ci == 0 && a2 == 2) vf_sample("pump part: cfg %d prefix AN depth %d over {add, run, run without a handle pointer, reply, status reply, deliver all, clock, peer close, config payload}: %ld states, %ld transitions", CFGI[ci], depth, n_states, n_transitions);
+		vf_obs("states=%ld", n_states);
+		alpha_main();
+		vf_case_end(n_traces > 0);
+	}
+}
+
 /* the same on an extending service (its configuration request is kept in another field of the same record): configuration requests,
  * configuration payloads, error PDUs, network events - no extension requests */
 static void part_extconf(void) {
@@ -953,6 +980,7 @@ static void run(void) {
 	part_timeouts();
 	part_sndbuf();
 	part_extconf();
+	part_pump();
 	for (ci = 0; ci < NCONFIGS; ci++) {
 		int d = depth;
 		if (!VF_THOROUGH && ci >= 4) d = depth - 1;
